@@ -88,6 +88,10 @@ type Mode struct {
 	// StrictTx: like database/sql, Commit and Rollback only work with the context BeginTX returned; called with any other
 	// context they fail ("no transaction in context") and the transaction stays open.
 	StrictTx bool
+	// LinkRotate: like a SQL store, RotateRefreshToken deactivates exactly the presented refresh token and deletes exactly the
+	// access token that was recorded as issued alongside it (the accessSignature argument of CreateRefreshTokenSession); the
+	// reference store ignores that link and sweeps by request id.
+	LinkRotate bool
 }
 
 // IStore wraps the reference MemoryStore.
@@ -110,6 +114,7 @@ type IStore struct {
 	Tap func(c Call)
 
 	invalidDev map[string]fosite.DeviceRequester
+	links      map[string]string // refresh-token signature -> signature of the access token issued alongside it (LinkRotate)
 
 	// transaction state (DB mode; sequential use only)
 	txOpen   bool
@@ -122,7 +127,7 @@ type IStore struct {
 type TxStore struct{ *IStore }
 
 func NewIStore(mem *storage.MemoryStore, mode Mode) *IStore {
-	return &IStore{Mem: mem, Mode: mode, invalidDev: map[string]fosite.DeviceRequester{}}
+	return &IStore{Mem: mem, Mode: mode, invalidDev: map[string]fosite.DeviceRequester{}, links: map[string]string{}}
 }
 
 func (s *IStore) ResetCalls() {
@@ -552,6 +557,11 @@ func (s *IStore) CreateRefreshTokenSession(ctx context.Context, sig, accessSig s
 		return s.w(e)
 	}
 	err := s.exec(c, func(m *storage.MemoryStore) error { return m.CreateRefreshTokenSession(ctx, sig, accessSig, s.in(req)) })
+	if err == nil {
+		s.mu.Lock()
+		s.links[sig] = accessSig
+		s.mu.Unlock()
+	}
 	s.leave(c, err)
 	return s.w(err)
 }
@@ -593,7 +603,25 @@ func (s *IStore) RotateRefreshToken(ctx context.Context, requestID, sig string) 
 		s.leave(c, e)
 		return s.w(e)
 	}
-	err := s.exec(c, func(m *storage.MemoryStore) error { return m.RotateRefreshToken(ctx, requestID, sig) })
+	err := s.exec(c, func(m *storage.MemoryStore) error {
+		if !s.Mode.LinkRotate {
+			return m.RotateRefreshToken(ctx, requestID, sig)
+		}
+		// UPDATE refresh SET active=false WHERE signature=?; DELETE FROM access WHERE signature=<its access_token_signature>
+		if _, err := m.GetRefreshTokenSession(ctx, sig, nil); err != nil {
+			return err // not found, or already inactive: a conditional update that matched no row
+		}
+		if err := m.RevokeRefreshToken(ctx, requestID); err != nil { // the request-id index points at the presented (newest) token
+			return err
+		}
+		s.mu.Lock()
+		link := s.links[sig]
+		s.mu.Unlock()
+		if link != "" {
+			return m.DeleteAccessTokenSession(ctx, link)
+		}
+		return nil
+	})
 	s.leave(c, err)
 	return s.w(err)
 }
@@ -872,6 +900,7 @@ func (s *IStore) InvalidateDeviceCodeSession(ctx context.Context, sig string) er
 // kept by reference (in DB mode they are immutable once stored). Nothing here names a table, so tables or indexes a later
 // version of the reference store adds are snapshotted and rolled back like the ones it has today.
 type snapshot struct {
+	links      map[string]string
 	mem        *storage.MemoryStore
 	invalidDev map[string]fosite.DeviceRequester
 }
@@ -971,7 +1000,7 @@ func copyMemoryStore(dst, src *storage.MemoryStore) {
 
 // Snapshot copies every table (values are immutable in DB mode).
 func (s *IStore) Snapshot() *snapshot {
-	sn := &snapshot{mem: &storage.MemoryStore{}, invalidDev: cpMap(s.invalidDev)}
+	sn := &snapshot{mem: &storage.MemoryStore{}, invalidDev: cpMap(s.invalidDev), links: cpMap(s.links)}
 	copyMemoryStore(sn.mem, s.Mem)
 	return sn
 }
@@ -980,6 +1009,7 @@ func (s *IStore) Restore(sn *snapshot) {
 	// restore from a copy, so that the snapshot itself stays pristine
 	copyMemoryStore(s.Mem, sn.mem)
 	s.invalidDev = cpMap(sn.invalidDev)
+	s.links = cpMap(sn.links)
 }
 
 func (s TxStore) BeginTX(ctx context.Context) (context.Context, error) {
